@@ -17,7 +17,9 @@ class LoopSpec:
     """inv(ip) -> [(name, formula)] evaluated on the current locals/heap/ghost;
     modifies(ip) -> locations havocked at the cut; locals: name -> type for locals whose current
     value does not determine their shape; decreases(ip) -> integer term (optional)"""
-    def __init__(self, inv=None, modifies=None, locals=None, decreases=None, tags=()):
+    def __init__(self, inv=None, modifies=None, locals=None, decreases=None, tags=(), checks=None):
+        self.checks = checks      # checks(ip, when) -> [(name, formula, tags)]: asserted at entry /
+        #                           after each iteration, never assumed (structural obligations)
         self.inv = inv or (lambda ip: [])
         self.modifies = modifies or (lambda ip: [])
         self.locals = locals or {}
@@ -38,6 +40,9 @@ def _spec(self, n):
 def _establish(self, k, spec, when):
     for item in spec.inv(self):
         self.st.oblige('loop%d-inv-%s:%s' % (k, when, item[0]), item[1], tags=item[2] if len(item) > 2 else spec.tags)
+    if spec.checks is not None:
+        for item in spec.checks(self, when):
+            self.st.oblige('loop%d-%s:%s' % (k, when, item[0]), item[1], tags=item[2] if len(item) > 2 else spec.tags)
 
 
 def _cut(self, k, spec, n, extra_targets=()):
@@ -84,6 +89,7 @@ def _loop_frame(self, k, spec, mark_w, mark_m):
 def st_While(self, n):
     st = self.st
     k, spec = _spec(self, n)
+    st.ghost.setdefault('loops_visited', []).append(k)
     _establish(self, k, spec, 'entry')
     _cut(self, k, spec, n)
     self._loop_heap_ids, self._loop_mem_ids = set(st.heap), set(st.mem)
@@ -114,6 +120,9 @@ def st_For(self, n):
         it = self.unopt(it, 'for')
     # ---- concrete-length sequences: plain iteration, nothing to cut
     if isinstance(it, tuple):
+        kk = self.loop_ord.get(id(n)) if self.loop_ord and not self.inlining else None
+        if kk is not None:
+            st.ghost.setdefault('loops_visited', []).append(kk)
         return _iterate_concrete(self, n, list(it))
     if isinstance(it, MRef) and isinstance(st.mem[it.ident], SList) and st.mem[it.ident].concrete_len() is not None:
         l = st.mem[it.ident]
@@ -175,6 +184,7 @@ def _for_slist(self, n, lst):
 def _for_producer(self, n, gen):
     st = self.st
     k, spec = _spec(self, n)
+    st.ghost.setdefault('loops_visited', []).append(k)
     gen.contract.start(self, gen)
     _establish(self, k, spec, 'entry')
     targets = source.assigned_names([ast.Assign(targets=[n.target], value=ast.Constant(value=None))])
@@ -191,6 +201,9 @@ def _for_producer(self, n, gen):
     try:
         self.block(n.body)
     except _Break:
+        hook = getattr(self.fcontract, 'on_loop_break', None)
+        if hook is not None:
+            hook(self, k)
         gen.contract.drop(self, gen)
         _loop_frame(self, k, spec, mw, mm)
         return
